@@ -137,10 +137,10 @@ def install(state, spec):
                         # dispatched generator is entered ABOVE the depth of the enclosing generate_expr call,
                         # except at the listed same-depth sites (`sameDepthSites` of Model/Depth.lean)
                         if head[0] in tb["gens"] and outer is not None and not gb and d1 <= outer[1] \
-                                and (key[0], s["targ"]) not in tb.get("same", ()):
+                                and (key[0], s["targ"], s["ol"]) not in tb.get("same", ()):
                             st["norise_count"] += 1
                             if len(st["norise"]) < 3:
-                                st["norise"].append({"site": list(key), "type_argument": s["targ"],
+                                st["norise"].append({"site": list(key), "type_argument": s["targ"], "only_leaves": s["ol"],
                                                      "outer_depth": outer[1], "depth": d1})
                         # … and the raised-counter recursion of a LEAF generator (the leaf branch of
                         # get_generators: gen_new into the fields of the class) is cut to the bottom constant /
